@@ -44,6 +44,7 @@ EdgeOK(i) ==
         /\ Chk(d.hc = e.out.hc, <<"EDGE_REJECTED", i, "handler-calls", "spec", d.hc, "impl", e.out.hc>>)
         /\ Chk(d.cbs = e.out.cbs, <<"EDGE_REJECTED", i, "callbacks", "spec", d.cbs, "impl", e.out.cbs>>)
         /\ Chk(d.res = e.out.res, <<"EDGE_REJECTED", i, "result", "spec", d.res, "impl", e.out.res>>)
+        /\ Chk(d.bg = e.out.bg, <<"EDGE_REJECTED", i, "handlers handed to background tasks", "spec", d.bg, "impl", e.out.bg>>)
         /\ Chk(d.set = ToSet(e.out.set), <<"EDGE_REJECTED", i, "result-set", "spec", d.set, "impl", e.out.set>>)
 
 (* every implementation edge out of this node is an edge of the spec       *)
